@@ -96,6 +96,10 @@ pub enum AltKind {
     /// a condition-variable wait returns although nobody notified it and no timeout
     /// expired (std allows this); offered only while `ctl::spurious(true)` is in force
     Spurious,
+    /// a timed condition-variable wait that HAS been notified gets the processor only
+    /// after its deadline (scheduling latency): the wait reports "not timed out" although
+    /// more time than requested has passed; offered together with `Spurious`
+    Late,
 }
 
 #[derive(Clone, Debug)]
@@ -168,6 +172,9 @@ pub struct State {
     /// spurious condition-variable wake-ups are offered as 1-cost deviations
     pub spurious: bool,
     pub spurious_wakes: u64,
+    pub late_wakes: u64,
+    /// debugging knob (environment variable VRT_NO_LATE): never offer late wake-ups
+    no_late: bool,
     pub divergence: Option<String>,
     pub end: Option<End>,
     // observation of the schedule
@@ -233,6 +240,7 @@ enum Alt {
     Run(Tid),
     Fire(Tid),
     Spurious(Tid),
+    Late(Tid),
 }
 
 fn fnv(h: u64, v: u64) -> u64 {
@@ -264,6 +272,8 @@ impl State {
             window_open: cfg.window_open,
             spurious: false,
             spurious_wakes: 0,
+            late_wakes: 0,
+            no_late: std::env::var_os("VRT_NO_LATE").is_some(),
             divergence: None,
             end: None,
             trace_hash: 0xcbf29ce484222325,
@@ -366,6 +376,37 @@ impl State {
             }
         }
         v
+    }
+
+    /// Notified timed waiters whose deadline has not passed yet.
+    fn late_candidates(&self) -> Vec<Tid> {
+        if !self.spurious || !self.window_open || self.no_late {
+            return Vec::new();
+        }
+        let mut v = Vec::new();
+        for (t, th) in self.threads.iter().enumerate() {
+            if th.finished {
+                continue;
+            }
+            if let Some(Op::CvWait { deadline: Some(d), .. }) = th.pending {
+                if th.notified && !th.timed_out && self.clock <= d {
+                    v.push(t);
+                }
+            }
+        }
+        v
+    }
+
+    fn wake_late(&mut self, t: Tid) {
+        self.late_wakes += 1;
+        if let Some(Op::CvWait { deadline: Some(d), .. }) = self.threads[t].pending {
+            // 100 us past the deadline
+            self.clock = self.clock.max(d.saturating_add(100_000));
+        }
+        if self.tracing {
+            let line = format!("        ~ notified t{} is scheduled only after its deadline, clock={}ns", t, self.clock);
+            self.trace.push(line);
+        }
     }
 
     fn wake_spuriously(&mut self, t: Tid) {
@@ -493,6 +534,7 @@ pub fn dispatch(exec: &Exec, st: &mut State) {
         let run: Vec<Tid> = (0..n).filter(|&t| st.is_enabled(t)).collect();
         let tm = st.timers();
         let sp = st.parked_waiters();
+        let late = st.late_candidates();
         let mut alts: Vec<Alt> = Vec::new();
         let mut kinds: Vec<AltKind> = Vec::new();
         if !run.is_empty() {
@@ -522,6 +564,10 @@ pub fn dispatch(exec: &Exec, st: &mut State) {
                 alts.push(Alt::Spurious(t));
                 kinds.push(AltKind::Spurious);
             }
+            for &t in &late {
+                alts.push(Alt::Late(t));
+                kinds.push(AltKind::Late);
+            }
         } else {
             let settle: Vec<Tid> = (0..n)
                 .filter(|&t| !st.threads[t].finished && st.threads[t].pending == Some(Op::Settle))
@@ -541,6 +587,10 @@ pub fn dispatch(exec: &Exec, st: &mut State) {
                     alts.push(Alt::Spurious(t));
                     kinds.push(AltKind::Spurious);
                 }
+                for &t in &late {
+                    alts.push(Alt::Late(t));
+                    kinds.push(AltKind::Late);
+                }
             } else if !tm.is_empty() {
                 // quiescence: time passes, the earliest deadline fires at no cost
                 alts.push(Alt::Fire(tm[0].1));
@@ -552,6 +602,10 @@ pub fn dispatch(exec: &Exec, st: &mut State) {
                 for &t in &sp {
                     alts.push(Alt::Spurious(t));
                     kinds.push(AltKind::Spurious);
+                }
+                for &t in &late {
+                    alts.push(Alt::Late(t));
+                    kinds.push(AltKind::Late);
                 }
             } else {
                 let all_done = st.threads.iter().all(|t| t.finished);
@@ -583,6 +637,9 @@ pub fn dispatch(exec: &Exec, st: &mut State) {
             }
             Alt::Spurious(t) => {
                 st.wake_spuriously(t);
+            }
+            Alt::Late(t) => {
+                st.wake_late(t);
             }
         }
     }
@@ -756,6 +813,7 @@ pub struct RunResult {
     pub threads_spawned: usize,
     pub notes: Vec<String>,
     pub trace: Vec<String>,
+    pub late_wakes: u64,
     pub spurious_wakes: u64,
     pub timer_fires: u64,
 }
@@ -802,6 +860,7 @@ pub fn run<F: FnOnce() + Send + 'static>(cfg: &RunCfg, f: F) -> RunResult {
         threads_spawned: st.threads.len(),
         notes: std::mem::take(&mut st.notes),
         trace: std::mem::take(&mut st.trace),
+        late_wakes: st.late_wakes,
         spurious_wakes: st.spurious_wakes,
         timer_fires: st.timer_fires,
     };
